@@ -1104,6 +1104,44 @@ def padcrop_items(g, repo):
            'def cropLo (n N : Int) : Int := n / 2 - N / 2')
 
 
+def live_attribute_items(g, ac, dm):
+    """every attribute of `self` that a backprop reads must be one the forward reads or writes (or a method): an
+    attribute written only in __init__ and read only by the backprop is a stale copy as soon as the public parameter
+    it was derived from is re-assigned on a live node (temperature annealing, changed slopes, ...)"""
+    def self_attrs(fn, ctx_type):
+        out = set()
+        for n in ast.walk(fn):
+            if isinstance(n, ast.Attribute) and isinstance(n.value, ast.Name) and n.value.id == 'self' and isinstance(n.ctx, ctx_type):
+                out.add(n.attr)
+        return out
+
+    def check(mod, cls, fwd, bwd, allow=()):
+        c = get_def(mod, cls)
+        methods = {n.name for n in c.body if isinstance(n, ast.FunctionDef)}
+        if '__setattr__' in methods or any(isinstance(n, ast.FunctionDef) and n.decorator_list for n in c.body):
+            return None                     # properties / attribute hooks may keep derived copies in step
+        if fwd not in methods or bwd not in methods:
+            return None
+        f, b = get_def(mod, f'{cls}.{fwd}'), get_def(mod, f'{cls}.{bwd}')
+        live = self_attrs(f, ast.Load) | self_attrs(f, ast.Store) | methods | set(allow)
+        # methods of self called by the forward contribute their reads too (e.g. a helper)
+        for n in ast.walk(f):
+            if isinstance(n, ast.Call) and isinstance(n.func, ast.Attribute) and isinstance(n.func.value, ast.Name) \
+                    and n.func.value.id == 'self' and n.func.attr in methods:
+                h = get_def(mod, f'{cls}.{n.func.attr}')
+                live |= self_attrs(h, ast.Load) | self_attrs(h, ast.Store)
+        stale = self_attrs(b, ast.Load) - live
+        return not stale
+
+    for cls in ('Softmax', 'GumbelSoftmax', 'DiscreteEncoder', 'Tanh', 'Arctan', 'Softplus', 'Sigmoid'):
+        fact3(g, f'backpropReadsLiveAttributes{cls}', f'prysm/x/optym/activation.py:{cls}',
+              lambda cls=cls: get_def(ac, cls), lambda cls=cls: check(ac, cls, 'forward', 'backprop'))
+    # DM: the inverse-warp coordinates (rotation, out of scope) and the influence-function array (only its shape is
+    # read) are derived once from constructor arguments that render does not read either
+    fact3(g, 'backpropReadsLiveAttributesDM', 'prysm/x/dm.py:DM', lambda: get_def(dm, 'DM'),
+          lambda: check(dm, 'DM', 'render', 'render_backprop', allow=('invprojx', 'invprojy', 'ifn')))
+
+
 def generate(repo):
     g = Gen('C06', imports=['PrysmVerif.PyPrelude', 'PrysmVerif.Model.C06'],
             header='set_option linter.unusedVariables false')
@@ -1123,6 +1161,7 @@ def generate(repo):
     dm, _ = load(repo, 'prysm/x/dm.py')
     structural_items(g, ft, po, dm)
     padcrop_items(g, repo)
+    live_attribute_items(g, ac, dm)
     return g.finish()
 
 
